@@ -67,6 +67,12 @@ CLAIMED = {
     "C13": ("S", "DCOP.solution_cost and assignment_cost executed with symbolic tables, symbolic variable costs and a symbolic (or float) infinity value; "
                  "z3 decides equality with (count of infinite terms, sum of the rest) for every value, and ValueError for every non-empty set of missing variables.",
             "Bounded: catalogue structures <= 4 variables + 1 external variable, integer costs; incomplete = strict subset of declared names.", "4/C13", S),
+    "C17": ("S", "Every constraint graph on up to 5 vertices (edge presence solver-chosen), optional ternary constraint and several insertion orders is handed to the real pseudo-tree "
+                 "builder and compared with the DFS-forest definition; exhaustive over the structures in the bound.",
+            "Structural exploration (each path one graph). Bounded to n <= 5; the 'long chains up to thousands of variables' part of the property is NOT decided (only concrete chains <= 40 in thorough).", "4/C17", S),
+    "C19": ("S", "A real MessagePassingComputation is driven through every history of up to 6 (8) operations among receive/post/pause/resume/start chosen by the engine; "
+                 "handled == received and sent == posted, in order, exactly once, on every history.",
+            "Histories are sequences of concrete operations (no numeric symbolic input); re-injected priority-19 messages are modelled as handled before newer ones (what C18 establishes for the agent queue).", "4/C19", S),
 }
 
 NOT_APPLICABLE = {
